@@ -29,7 +29,7 @@ ASSUMPTIONS = [
     "both worlds of a case share the process zone (the property quantifies over reference times; timestamps are rendered in the process zone by design)",
     "frozen clock per call (a relation between calls needs each call to have one reference)",
 ]
-EXPECTED_PROBES = {"r0_judged": 1, "clock_in_play": 1, "strict_value": 1, "strict_none": 1, "custom_format_used": 1, "timestamp": 1, "require_parts": 1, "localized": 1}
+EXPECTED_PROBES = {"corpus_string": 1, "r0_judged": 1, "clock_in_play": 1, "strict_value": 1, "strict_none": 1, "custom_format_used": 1, "timestamp": 1, "require_parts": 1, "localized": 1}
 
 EN_MONTHS = ["January", "February", "March", "April", "May", "June", "July", "August", "September", "October", "November", "December"]
 EN_DAYS = ["Monday", "Tuesday", "Wednesday", "Thursday", "Friday", "Saturday", "Sunday"]
@@ -53,6 +53,37 @@ class Context:
             months = [[n for n in info.get(k.lower(), []) if n and not any(c.isdigit() for c in n)] for k in EN_MONTHS]
             days = [[n for n in info.get(k.lower(), []) if n and not any(c.isdigit() for c in n)] for k in EN_DAYS]
             self.info[L] = (months, days)
+        self.corpus = harvest_corpus()
+
+
+_CORPUS = None
+
+
+def harvest_corpus():
+    """The multilingual strings of the tree's own test tables (first string arguments of param(...)
+    rows), used as workload only: the relations R1-R3 need no expected values."""
+    global _CORPUS
+    if _CORPUS is not None:
+        return _CORPUS
+    import ast
+    import os
+
+    from simkit import env
+
+    out = set()
+    for name in ("test_date_parser.py", "test_date.py", "test_parser.py", "test_languages.py", "test_clean_api.py", "test_settings.py", "test_timezone_parser.py", "test_jalali.py"):
+        try:
+            with open(os.path.join(env.repo_dir(), "tests", name), encoding="utf-8") as f:
+                tree = ast.parse(f.read())
+        except Exception:  # noqa  (a tree without that file just contributes nothing)
+            continue
+        for n in ast.walk(tree):
+            if isinstance(n, ast.Call) and getattr(n.func, "id", None) == "param":
+                for a in list(n.args[:2]) + [k.value for k in n.keywords if k.arg in ("date_string", "datetime_string")]:
+                    if isinstance(a, ast.Constant) and isinstance(a.value, str) and 4 <= len(a.value) <= 60 and any(ch.isdigit() for ch in a.value):
+                        out.add(a.value)
+    _CORPUS = sorted(out)
+    return _CORPUS
 
 
 def two_clocks(rng):
@@ -74,10 +105,16 @@ def gen_case(rng, ctx):
     last_ = _cal.monthrange(y_, m_)[1]
     d = dt.datetime(y_, m_, rng.choice([rng.randrange(1, 29), rng.randrange(1, last_ + 1), last_, last_]), rng.randrange(24), rng.randrange(60))
     kind = rng.choice(["words", "words", "words", "numeric", "format", "format", "timestamp"])
+    if ctx.corpus and rng.random() < 0.04:
+        kind = "corpus"
     present = []
     fmts = None
     localized = False
-    if kind == "timestamp":
+    if kind == "corpus":
+        s = rng.choice(ctx.corpus)
+        present = ["corpus"]
+        lang = None if rng.random() < 0.85 else "en"
+    elif kind == "timestamp":
         ts = rng.randrange(10 ** 9, 2 * 10 ** 9)
         s = str(ts) + rng.choice(["", "", "123", "123456"])
         present = ["timestamp"]
@@ -331,6 +368,8 @@ def eval_case(case):
         stats["timestamp"] = 1
     if case["localized"]:
         stats["localized"] = 1
+    if case["kind"] == "corpus":
+        stats["corpus_string"] = 1
     problems = []
     out_log = {"plain": {"%d,%d" % k: (v[0], canon_dt(v[1]) if v[0] == "ok" else v[1]) for k, v in plain.items()}}
     for strict in case["stricts"]:
@@ -349,7 +388,7 @@ def eval_case(case):
                 if p[0] != "exc":
                     problems.append(("R1-strict-raises", name, "world %s: strict raised %s, non-strict returned %r" % (k, v[1], p[1])))
             elif v[1] is not None:
-                if p[0] != "ok" or p[1] != v[1] or (p[1] is not None and p[1].tzinfo != v[1].tzinfo):
+                if p[0] != "ok" or p[1] != v[1] or (p[1] is not None and (p[1].utcoffset(), p[1].tzname()) != (v[1].utcoffset(), v[1].tzname())):
                     expl = None
                     if pipeline(case) == "multi":
                         expl = explain_fallback(dateparser, case, clocks[k[0]], bases[k[1]], strict, v[1])
